@@ -106,7 +106,7 @@ let () =
   let out = Buffer.create 65536 in
   (try while true do
     let line = input_line ic in
-    if String.length line > 0 then begin
+    if String.length line > 0 && line.[0] <> '!' then begin   (* '!' lines are side channels for runner.py *)
       let verdict =
         try
           let tab = String.index line '\t' in
